@@ -1285,3 +1285,33 @@ def wrapper_table(ctx, rule):
             and not (e_ is not None and any("ResetSigmask" in thir.peel(n["fn"]).get("full", "") for c, n in thir.calls_in(e_)))
     ctx.require(ok, rule, "wrappers:reset-sigmask", "reset_sigmask => ResetSigmask wrapper", f.loc(f.line))
     return f
+
+
+def callbox_table(ctx, rule):
+    """the sync/async callback boxes (spawn hook, error handler): None -> nothing, Sync -> the callback is called, Async -> the callback's future
+    is awaited to completion before call() returns; nothing is detached (so `hook ran` means `hook finished`)"""
+    facts = ctx.facts
+    for name, args in (("SpawnHook", "(^command, ^context)"), ("ErrorHandler", "(^error)")):
+        base = ctx.anchor_fn(rule, SUP + "::job::task::%s::call" % name)
+        cor = [c for c in facts.descendants(base) if c.kind == "coroutine"]
+        rows = {}
+        spawned = []
+        for c in [base] + facts.descendants(base):
+            ctx.saw_fn(c)
+            for _, t in c.calls():
+                if t.callee.is_("tokio::task::spawn::spawn", "tokio::task::spawn::spawn_local", "tokio::task::blocking::spawn_blocking", "tokio::runtime::handle::Handle::spawn"):
+                    spawned.append(c.def_)
+        for c in cor:
+            for q in pathx.Enum().paths(thir.root(c)):
+                arm = [e[2][0].split("(")[0] for e in q.ev if e[0] == "arm" and e[1].lstrip("^") == "self"]
+                if len(arm) != 1:
+                    continue
+                calls = [strip_generics(e[1]).split("::")[-1] for e in q.ev if e[0] == "call" and not strip_generics(e[1]).endswith("Deref::deref")]
+                awaits = sum(1 for e in q.ev if e[0] == "await")
+                cargs = [pathx.desc(e[2]["a"][1]) for e in q.ev if e[0] == "call" and strip_generics(e[1]).endswith("Fn::call")]
+                rows[arm[0]] = (calls, awaits, cargs)
+        want = {"None": ([], 0, []), "Sync": (["call"], 0, [args]), "Async": (["call", "into_pin"], 1, [args])}
+        ctx.require(rows == want and not spawned, rule, "callbox:" + name, "%s::call: None -> nothing; Sync -> called with %s; Async -> called and its future awaited; nothing detached" % (name, args),
+                    base.loc(base.line), detail=str(rows)[:300] + (" spawned in %s" % spawned if spawned else ""),
+                    fail="%s::call no longer runs the user's callback to completion before returning (%s%s): a spawn / an error report proceeds while the callback is still running"
+                         % (name, str(rows)[:200], ", detached with tokio::spawn" if spawned else ""))
